@@ -64,6 +64,13 @@ CHECKS = {
             "invalid, wrong view, absent signature) and timer expiry. TLC checks that certificates appear exactly at the quorum step, contain only counted votes, verify "
             "at all other replicas, that hostile votes never prevent them, and that every partial aggregate sent to the parent verifies.",
             "Vote sender ids are transport-authenticated; the wait timer of a Kauri round fires at most once.", "DESIGN.md section 6, C09"),
+    "C10": ("model_checking",
+            "TLA+ Wire module defines the message grammar and the Verifies predicate; TLC enumerates it, the harness feeds every shape to the real service handlers of a running replica, TLC judges panic-freedom and state preservation (line check)",
+            "Every message shape of Wire!Messages (15 264 shapes; all of them in the thorough tier, a stratified sample in the quick tier) is instantiated as a real protobuf "
+            "message with real keys and handed to the real serviceImpl handlers / event loop of a running replica in three states, per scheme, cache and timeout-rule "
+            "configuration. Panics are recovered and located. TLC checks: no panic, and when the grammar's Verifies predicate says nothing in the message verifies, view, "
+            "high QC/TC, lock, committed block and vote history are unchanged; it also re-derives the Verifies flag from the grammar.",
+            "Sender ids are supplied as the transport would; protobuf decoding is trusted.", "DESIGN.md section 6, C10"),
     "C11": ("model_checking",
             "TLA+ SigCache module (LRU state machine, key derivation) model-checked by TLC for transparency; TLC state-machine replay of operation sequences run on a cached and an uncached real Authority",
             "TLC exhausts the cache model over a small request universe and shows cached verdict = uncached verdict in every reachable state (negative control: the "
